@@ -22,6 +22,8 @@ From RV Require Import Proofs.FilterGeom.
 From RV Require Import Model.SrgbSpec.
 From RV Require Import Proofs.SrgbSpec.
 From RV Require Import Proofs.PixelArith.
+From RV Require Import Model.FilterWire.
+From RV Require Import Proofs.FilterWire.
 From Flocq Require Import Core BinarySingleNaN.
 Local Open Scope Z_scope.
 
@@ -135,6 +137,25 @@ Print Assumptions C16_blur_zero_id.
 Theorem C16_merge_single_id : forall p, merge_single p = p.
 Proof. exact merge_single_id. Qed.
 Print Assumptions C16_merge_single_id.
+
+(* ================================================================== wiring of named results (model validated by the `wire` correspondence) *)
+Theorem C16_reference_is_last_result : forall results name v,
+  find_last (results ++ [(name, v)]) name None = Some v /\
+  (forall other, other <> name -> find_last (results ++ [(other, v)]) name None = find_last results name None).
+Proof. intros. split; [apply find_last_newest|intros; apply find_last_other; assumption]. Qed.
+Print Assumptions C16_reference_is_last_result.
+
+Theorem C16_results_are_immutable : forall src ps results n v,
+  nth_error results n = Some v -> nth_error (run_prims src results ps) n = Some v.
+Proof. exact results_are_immutable. Qed.
+Print Assumptions C16_results_are_immutable.
+
+Theorem C16_shadowed_name_reads_newest : forall src other name, byte_px src ->
+  run_filter [ {| w_kind := WColorMatrix CMLuminanceToAlpha WSource; w_cs := CsSRGB; w_name := name |};
+               {| w_kind := WOffset0 WSource; w_cs := CsSRGB; w_name := name |};
+               {| w_kind := WMerge [WRef name]; w_cs := CsSRGB; w_name := other |} ] src = src.
+Proof. exact shadowed_name_reads_newest. Qed.
+Print Assumptions C16_shadowed_name_reads_newest.
 
 (* ================================================================== containment *)
 Theorem C16_clip_rects_cover_complement : forall w h s px py,
